@@ -23,6 +23,14 @@ import z3
 from . import extract
 
 
+def has_sym(obj, name):
+    """abstract-value protocol lookup on the class (never triggers an instance __getattr__)"""
+    return getattr(type(obj), name, None) is not None
+
+
+_SITE_CACHE = {}
+
+
 class Unsupported(Exception):
     """Construct outside the subset: the function is reported out of reach."""
 
@@ -352,6 +360,23 @@ class Interp(object):
         c.run = run
         return c
 
+    def site(self, node):
+        """Stable, line-number-free label of an AST node: <function>.<NodeType>#<ordinal in source order>."""
+        fn = self.fn_stack[-1] if getattr(self, 'fn_stack', None) else None
+        if fn is None:
+            return f'{type(node).__name__}'
+        key = id(fn)
+        cache = _SITE_CACHE.setdefault(key, {})
+        if not cache:
+            fnode = extract.func_ast(fn)
+            by = {}
+            for n in sorted([n for n in ast.walk(fnode) if hasattr(n, 'lineno')], key=lambda n: (n.lineno, n.col_offset, type(n).__name__)):
+                t = type(n).__name__
+                by[t] = by.get(t, 0) + 1
+                cache[(t, n.lineno, n.col_offset)] = by[t] - 1
+        ix = cache.get((type(node).__name__, node.lineno, node.col_offset))
+        return f'{fn.__name__}.{type(node).__name__}#{ix}'
+
     def repo_function(self, f):
         code = getattr(f, '__code__', None)
         return code is not None and code.co_filename.startswith(extract.REPO)
@@ -384,6 +409,14 @@ class Interp(object):
             if p not in bound:
                 raise Raised(TypeError(f'{fn.__name__}() missing required argument {p!r}'), node)
         frame = Frame(bound, fn)
+        if not hasattr(self, 'fn_stack'):
+            self.fn_stack = []
+        self.fn_stack.append(fn)
+        try:
+            self.run.path.inlined.append(f'{fn.__code__.co_filename.split("/")[-1]}:{fn.__name__}:{fnode.lineno}')
+            return self.exec_function_body(fnode, frame)
+        finally:
+            self.fn_stack.pop()
         self.run.path.inlined.append(f'{fn.__code__.co_filename.split("/")[-1]}:{fn.__name__}:{fnode.lineno}')
         return self.exec_function_body(fnode, frame)
 
@@ -449,7 +482,7 @@ class Interp(object):
             raise Unsupported(f'assignment target {type(target).__name__}')
 
     def setitem(self, obj, key, v, node):
-        if hasattr(obj, 'sym_setitem'):
+        if has_sym(obj, 'sym_setitem'):
             return obj.sym_setitem(self, key, v, node)
         if isinstance(obj, (list, dict)) and not is_sym(key):
             obj[key] = v
@@ -498,7 +531,7 @@ class Interp(object):
             if isinstance(t, ast.Subscript):
                 obj = self.eval(t.value, frame)
                 key = self.eval(t.slice, frame)
-                if hasattr(obj, 'sym_delitem'):
+                if has_sym(obj, 'sym_delitem'):
                     obj.sym_delitem(self, key, t)
                 elif not is_sym(key) and isinstance(obj, (dict, list)):
                     try:
@@ -596,8 +629,11 @@ class Interp(object):
             seq = range(n)
         else:
             seq = self.eval(it, frame)
-            if hasattr(seq, 'sym_iter'):
+            if has_sym(seq, 'sym_iter'):
                 return seq.sym_iter(self, s, frame)
+            if isinstance(seq, SV) and seq.kind == 'str':
+                # for c in <string>: desugared to an index loop with c = s[k]
+                return self.sym_range_loop(s, SV('int', z3.Length(seq.t)), frame, elem=lambda ix: SV('str', z3.SubString(seq.t, ix, 1)))
             if isinstance(seq, SV) or isinstance(seq, PatStr):
                 raise Unsupported('iteration over symbolic value')
         hook = self.concrete_loop_hook(s, seq, frame)
@@ -633,7 +669,7 @@ class Interp(object):
                                 out.append(e.id)
         return out
 
-    def sym_range_loop(self, s, N, frame):
+    def sym_range_loop(self, s, N, frame, elem=None):
         if not isinstance(s.target, ast.Name):
             raise Unsupported('range loop with non-name target')
         if s.orelse:
@@ -658,7 +694,7 @@ class Interp(object):
         def body(run):
             sub = outer.fork(run)
             fr = Frame(dict(frame.locals), frame.fn, frame.parent)
-            fr.locals[tname] = SV('int', NVAR)
+            fr.locals[tname] = elem(NVAR) if elem is not None else SV('int', NVAR)
             for n in mod:
                 fr.locals[n] = at[n]
             try:
@@ -955,6 +991,10 @@ class Interp(object):
             raise Unsupported('container arithmetic')
         if ka == 'str' and kb == 'str' and isinstance(op, ast.Add):
             return self.str_concat([a, b])
+        if isinstance(op, ast.Mult) and {ka, kb} == {'str', 'int'}:
+            st, n = (a, b) if ka == 'str' else (b, a)
+            f = z3.Function('str_repeat', z3.StringSort(), z3.IntSort(), z3.StringSort())
+            return SV('str', f(term(st), term(n, 'int')))
         k = num_join(a, b)
         if k is None:
             raise Raised(TypeError(f"unsupported operand type(s) for {type(op).__name__}: '{pytype_name(a)}' and '{pytype_name(b)}'"), node)
@@ -1067,7 +1107,7 @@ class Interp(object):
         raise Unsupported(f'truth of {k}')
 
     def truth(self, v, node):
-        if hasattr(v, 'sym_truth'):
+        if has_sym(v, 'sym_truth'):
             v = v.sym_truth(self, node)
         if isinstance(v, SV):
             where = f'{getattr(node, "lineno", 0)}:{getattr(node, "col_offset", 0)}'
@@ -1100,16 +1140,19 @@ class Interp(object):
         return result
 
     def compare(self, op, a, b, node):
-        if not is_sym(a) and not is_sym(b) and not hasattr(b, 'sym_contains'):
+        if not is_sym(a) and not is_sym(b) and not has_sym(b, 'sym_contains'):
             try:
                 return _CONC_CMP[type(op)](a, b)
             except Exception as ex:
                 raise Raised(ex, node)
-        if isinstance(op, (ast.In, ast.NotIn)) and hasattr(b, 'sym_contains'):
+        if isinstance(op, (ast.In, ast.NotIn)) and has_sym(b, 'sym_contains'):
             r = b.sym_contains(self, a, node)
             if isinstance(op, ast.NotIn):
                 return SV('bool', z3.Not(r.t)) if isinstance(r, SV) else (not r)
             return r
+        if isinstance(op, (ast.In, ast.NotIn)) and kind_of(b) == 'str' and kind_of(a) == 'str' and not isinstance(a, PatStr) and not isinstance(b, PatStr):
+            r = SV('bool', z3.Contains(term(b), term(a)))
+            return SV('bool', z3.Not(r.t)) if isinstance(op, ast.NotIn) else r
         if isinstance(op, (ast.In, ast.NotIn)):
             if isinstance(b, (list, tuple, set, frozenset, dict)):
                 # membership in a list that deliberately mixes enumeration classes is fine as long as
@@ -1196,7 +1239,7 @@ class Interp(object):
             except Exception as ex:
                 raise Raised(ex, e)
         key = self.eval(e.slice, frame)
-        if hasattr(obj, 'sym_getitem'):
+        if has_sym(obj, 'sym_getitem'):
             return obj.sym_getitem(self, key, e)
         r = self.getitem_hook(obj, key, e)
         if r is not NotImplemented:
@@ -1207,6 +1250,11 @@ class Interp(object):
             if self.run.branch(z3.Length(obj.t) <= key, where=f'I{e.lineno}:{e.col_offset}'):
                 raise Raised(IndexError('string index out of range'), e)
             return SV('str', z3.SubString(obj.t, key, 1))
+        if isinstance(key, SV) and key.kind == 'str' and isinstance(obj, type) and issubclass(obj, _enum.Enum):
+            for name, member in obj.__members__.items():
+                if self.run.branch(key.t == z3.StringVal(name), where=f'E{e.lineno}:{e.col_offset}:{name}'):
+                    return member
+            raise Raised(KeyError('not a member name'), e)
         if isinstance(key, SV) and key.kind in ('int', 'bool') and isinstance(obj, (dict, list, tuple)):
             kt = term(key, 'int')
             cands = list(obj.keys()) if isinstance(obj, dict) else list(range(len(obj))) + list(range(-len(obj), 0))
@@ -1226,7 +1274,7 @@ class Interp(object):
         r = self.getattr_hook(obj, e.attr, e)
         if r is not NotImplemented:
             return r
-        if isinstance(obj, (SV, PatStr)) or hasattr(obj, 'sym_method'):
+        if isinstance(obj, (SV, PatStr)) or has_sym(obj, 'sym_method'):
             return BoundSym(obj, e.attr)
         try:
             return getattr(obj, e.attr)
@@ -1312,7 +1360,9 @@ class Interp(object):
         if isinstance(f, types.FunctionType) and self.repo_function(f) and anysym:
             return self.call_function(f, list(args), kwargs, node)
         if anysym and isinstance(f, type) and issubclass(f, BaseException):
-            return f(*[a if not is_sym(a) else f'<symbolic {kind_of(a)}>' for a in args])
+            if f.__module__ == 'builtins':
+                return f(*[a if not is_sym(a) else f'<symbolic {kind_of(a)}>' for a in args])
+            return f(*args, **kwargs)     # exception classes of the repository keep their (symbolic) payload
         if anysym:
             h = _SYM_BUILTINS.get(f) if isinstance(f, (types.BuiltinFunctionType, type)) else None
             if h is not None:
@@ -1366,7 +1416,7 @@ class Interp(object):
         return self.str_concat(parts) if parts else ''
 
     def sym_method(self, obj, attr, args, kwargs, node):
-        if hasattr(obj, 'sym_method'):
+        if has_sym(obj, 'sym_method'):
             return obj.sym_method(self, attr, args, kwargs, node)
         if isinstance(obj, SV) and obj.kind == 'str':
             if attr in ('upper', 'lower', 'strip') and not args:
@@ -1439,13 +1489,42 @@ def _minmax(is_min):
     return h
 
 
+FLOAT_OK = z3.Function('py_float_ok', z3.StringSort(), z3.BoolSort())        # float(s) does not raise ValueError
+FLOAT_VAL = z3.Function('py_float_val', z3.StringSort(), z3.RealSort())
+FLOAT_FINITE = z3.Function('py_float_finite', z3.StringSort(), z3.BoolSort())  # ... and the result is neither inf nor nan
+INT_OK = z3.Function('py_int_ok', z3.StringSort(), z3.BoolSort())
+INT_VAL = z3.Function('py_int_val', z3.StringSort(), z3.IntSort())
+IS_FINITE_OF = {}   # term id of a float() result -> string it came from
+
+
+def _re_ci(word):
+    parts = [z3.Union(z3.Re(ch.lower()), z3.Re(ch.upper())) if ch.isalpha() else z3.Re(ch) for ch in word]
+    return z3.Concat(*parts) if len(parts) > 1 else parts[0]
+
+
+def float_grammar_facts(st):
+    """A-BUILTIN: strings float() accepts as non-finite (after stripping): [+-]?(inf|infinity|nan), any case."""
+    sign = z3.Option(z3.Union(z3.Re('+'), z3.Re('-')))
+    nonfinite = z3.Concat(sign, z3.Union(_re_ci('inf'), _re_ci('infinity'), _re_ci('nan')))
+    return [z3.Implies(z3.InRe(st, nonfinite), z3.And(FLOAT_OK(st), z3.Not(FLOAT_FINITE(st)))),
+            z3.Implies(FLOAT_FINITE(st), FLOAT_OK(st))]
+
+
 def _b_float(self, args, kwargs, node):
     v = args[0]
     k = kind_of(v)
     if k in NUM:
         return SV('real', term(v, 'real'))
+    if k == 'str' and isinstance(v, SV):
+        for f in float_grammar_facts(v.t):
+            self.run.fact(f)
+        if self.run.branch(z3.Not(FLOAT_OK(v.t)), where=f'float@{node.lineno}'):
+            raise Raised(ValueError('could not convert string to float'), node)
+        r = FLOAT_VAL(v.t)
+        IS_FINITE_OF[r.get_id()] = v.t
+        return SV('real', r)
     if k == 'str':
-        raise Unsupported('float() of symbolic string')
+        raise Unsupported('float() of pattern string')
     raise Raised(TypeError(f"float() argument must be a string or a real number, not '{pytype_name(v)}'"), node)
 
 
@@ -1458,6 +1537,10 @@ def _b_int(self, args, kwargs, node):
         t = term(v)
         # truncation toward zero
         return SV('int', z3.If(t >= 0, z3.ToInt(t), -z3.ToInt(-t)))
+    if k == 'str' and isinstance(v, SV):
+        if self.run.branch(z3.Not(INT_OK(v.t)), where=f'int@{node.lineno}'):
+            raise Raised(ValueError('invalid literal for int()'), node)
+        return SV('int', INT_VAL(v.t))
     raise Unsupported('int() of symbolic non-number')
 
 
@@ -1477,7 +1560,7 @@ def _b_bool(self, args, kwargs, node):
 
 def _b_len(self, args, kwargs, node):
     v = args[0]
-    if hasattr(v, 'sym_len'):
+    if has_sym(v, 'sym_len'):
         return v.sym_len(self, node)
     if isinstance(v, SV) and v.kind == 'str':
         return SV('int', z3.Length(v.t))
@@ -1538,6 +1621,8 @@ def _b_isinstance(self, args, kwargs, node):
         py = {'int': int, 'real': float, 'bool': bool, 'str': str}.get(v.kind)
         if v.kind == 'enum':
             py = v.cls
+        if py is None:
+            raise Unsupported('isinstance() of an opaque value')
         classes = cls if isinstance(cls, tuple) else (cls,)
         return any(issubclass(py, c) for c in classes)
     if isinstance(v, PatStr):
@@ -1545,11 +1630,25 @@ def _b_isinstance(self, args, kwargs, node):
     return isinstance(v, cls)
 
 
+def _b_isfinite(self, args, kwargs, node):
+    v = args[0]
+    if isinstance(v, SV) and v.kind == 'real':
+        src = IS_FINITE_OF.get(v.t.get_id())
+        if src is not None:
+            return SV('bool', FLOAT_FINITE(src))
+        return True      # arithmetic on reals stays finite (A-REAL)
+    if isinstance(v, SV) and v.kind in ('int', 'bool'):
+        return True
+    raise Unsupported('isfinite of non-number')
+
+
 def _b_type(self, args, kwargs, node):
     v = args[0]
     if isinstance(v, SV):
         if v.kind == 'enum':
             return v.cls
+        if v.kind not in ('int', 'real', 'bool', 'str'):
+            raise Unsupported(f'type() of an opaque value')
         return {'int': int, 'real': float, 'bool': bool, 'str': str}[v.kind]
     if isinstance(v, PatStr):
         return str
@@ -1566,4 +1665,5 @@ _SYM_BUILTINS = {
     builtins.len: _b_len, builtins.round: _b_round, math.ceil: _b_ceil, builtins.abs: _b_abs,
     builtins.list: _b_list, builtins.isinstance: _b_isinstance, builtins.range: _b_range, builtins.type: _b_type,
     builtins.tuple: lambda self, a, k, n: tuple(_b_list(self, a, k, n)),
+    math.isfinite: _b_isfinite,
 }
